@@ -383,7 +383,27 @@ def run(ctx):
     }
 
 
+def f31_no_access_record():
+    """F31 seen from C03: http.response.trailers before the response start on HTTP/2 ends the stream without a response
+    head, and the request never gets an access record."""
+    from . import h2rig as H2
+
+    log = AccessLog([])
+    sess = H2.H2Session([[("send", {"type": "http.response.trailers", "headers": [], "more_trailers": False}), ("return",)]])
+    sess.cfg._log = log
+    sess.request(1)
+    sess.pump()
+    sess.eof()
+    n = len(log.scopes)
+    return f"{n} access records for the request (END_STREAM x{sess.ended.get(1, 0)}, response heads: {len(sess.headers.get(1, []))})" if n != 1 else None
+
+
 def known_still_fails(k):
+    if k.get("id") == "F31":
+        try:
+            return f31_no_access_record()
+        except Exception:  # noqa: BLE001
+            return None
     if k.get("signature") == "F14:app-queue-full-deadlock":
         from .c06 import f14_witness
 
